@@ -11,6 +11,8 @@ CONSTANTS
   IdentityDepKey = TRUE
   VolatileUniq = TRUE
   FreshModule = TRUE
+  Words = {1}
+  FullStropKey = TRUE
 VIEW View
 INVARIANT SibDigest
 INVARIANT LimitRespected
